@@ -179,7 +179,7 @@ def cases(tier, seed):
             for fname in ("uf8", "panic", "opt", "sub8", "lin8", "arr3", "pair"):
                 add(fname, N, "witness_any", None, False)
             add("panic", N, "witness_any", None, True)
-        elif N == 32 or (N in (64, 128) and tier == "thorough"):
+        elif N == 32 or (N == 64 and tier == "thorough"):
             # measured: arbitrary f at N=32 6 s, N=64 27 s; the panicking f (interpreted) 0.7 s at N=32
             add("uf8", N, "witness_any", None, False)
             add("panic", N, "witness_any", None, False)
@@ -212,7 +212,7 @@ def main():
                    "array.rs: Partition::from_slice/fold, BTreeSlice::fold", "types.rs/value.rs: list layout as used for witness and literal lists",
                    "ast.rs: fold typing (accepts the generated programs)"],
         bounds={"list_bounds_N": "2..256 (quick), 2..512 (thorough)", "lengths": "every k in 0..N-1 for f in {arbitrary (uninterpreted), e-acc}; "
-                "spread of lengths for other element types", "symbolic_length_query": "N <= 32 in quick (arbitrary f and the panicking f), N <= 128 in thorough",
+                "spread of lengths for other element types", "symbolic_length_query": "N <= 32 in quick (arbitrary f and the panicking f), N <= 64 in thorough (N = 128 exceeded the 120 s cap)",
                 "element_types": ["u8", "(u8,u8)", "Option<u8>", "[u8;3]"], "accumulators": ["u8", "u16", "Ctx8"]},
         outside=["N > 512", "element types other than listed", "jet arithmetic (C jets) - validated concretely only",
                  "satisfy/encode/decode of the library (exercised only by the concrete cross-validation runs)"],
